@@ -631,7 +631,6 @@ func checkMirrorHelpers(prog *core.Program, r3 *core.RuleRun) {
 	}
 }
 
-
 // checkQueueClosers (R16.5): a send on a closed channel panics, also inside a select with a default case. The
 // receive-to-worker queues are closed by the receive loop, which is their only sender; the mirror queues are sent on
 // by every worker and are therefore closed by no one (a worker that is still draining its backlog at shutdown would
